@@ -143,6 +143,12 @@ func (Prop) Gen(seed int64, tier string) *harness.Case {
 		for i := range w.Items {
 			w.Items[i] = 10 + r.Intn(70)
 		}
+		if (w.relays() || w.dispatches()) && r.Intn(2) == 0 {
+			// hundreds of goroutines alive at once, each holding one item
+			for i := range w.Items {
+				w.Items[i] = 100 + r.Intn(80)
+			}
+		}
 		if r.Intn(2) == 0 {
 			w.Workers = 2 + r.Intn(3)
 			w.WorkForm = r.Intn(3)
